@@ -176,3 +176,24 @@ pub enum Bin<L, R> {
     LeftEnd,
     RightEnd,
 }
+
+thread_local! {
+    static MOCK_CLOCK: std::cell::Cell<Option<std::time::Duration>> = const { std::cell::Cell::new(None) };
+}
+static CLOCK_BASE: once_cell::sync::Lazy<std::time::Instant> =
+    once_cell::sync::Lazy::new(std::time::Instant::now);
+
+/// Clock read by the processing-time and session windows: the real `Instant::now()` unless
+/// the calling thread installed a mock reading with [`set_mock_clock`].
+pub fn now() -> std::time::Instant {
+    match MOCK_CLOCK.with(|c| c.get()) {
+        Some(offset) => *CLOCK_BASE + offset,
+        None => std::time::Instant::now(),
+    }
+}
+
+/// Install (or remove) the mock clock reading of the calling thread, as an offset from a
+/// fixed base instant.
+pub fn set_mock_clock(offset: Option<std::time::Duration>) {
+    MOCK_CLOCK.with(|c| c.set(offset));
+}
